@@ -177,7 +177,17 @@ func (c *connection) Open(ctx context.Context, mode OpenMode) error {
 	}
 
 	if mode == OpenWaitSelected {
-		return c.waitSelected(ctx, e, s)
+		// The wait is bounded only by the CALLER's ctx, so lifeMu must not be held across it: a Close
+		// (or a redundant Open) issued from another goroutine would otherwise be stalled for as long
+		// as this caller is willing to wait — far beyond the close timeout. The generation and its
+		// supervisor are fully published above, so a concurrent Close can pin and tear them down;
+		// waitSelected then returns ErrConnClosed through e.done. lifeMu is re-acquired only to keep
+		// the deferred Unlock balanced.
+		c.lifeMu.Unlock()
+		err := c.waitSelected(ctx, e, s)
+		c.lifeMu.Lock()
+
+		return err
 	}
 
 	return nil
